@@ -294,6 +294,11 @@ def prove(ctx, mod):
     if ctx.thorough:
         ctx.checker_cmd += " ; coqchk -o -silent -Q coq JV JV.Props.%s" % ctx.prop
     pinned = [l.rstrip("\n") for l in open(pinned_path(ctx.prop))] if os.path.exists(pinned_path(ctx.prop)) else []
+    if not os.path.exists(os.path.join(COQ, props_file)):
+        ctx.fail("proof", "props-file-missing", props_file, "no theorem file for this property")
+        ctx.proof_ok = False
+        ctx.obligations = len([l for l in pinned if l.startswith("Theorem ")])
+        return
     now = ["%s %s : %s" % t for t in theorem_statements(props_file)]
     thms = [l for l in pinned if l.startswith("Theorem ")]
     ctx.obligations = len(thms)
